@@ -242,6 +242,10 @@ int handle_read(struct snapraid_handle* handle, block_off_t file_pos, unsigned c
 	unsigned count;
 	int ret;
 
+	/* clear errno, because the callers check it to identify input/output errors, */
+	/* and a failure not caused by a system call doesn't set it */
+	errno = 0;
+
 	offset = file_pos * (data_off_t)block_size;
 
 	if (!out_missing)
@@ -272,7 +276,7 @@ int handle_read(struct snapraid_handle* handle, block_off_t file_pos, unsigned c
 			/* LCOV_EXCL_STOP */
 		}
 		if (read_ret == 0) {
-			out("Unexpected end of file '%s' at offset %" PRIu64 ". %s.\n", handle->path, offset, strerror(errno));
+			out("Unexpected end of file '%s' at offset %" PRIu64 ".\n", handle->path, offset);
 			return -1;
 		}
 
